@@ -124,6 +124,21 @@ func runC19cap(c *vkit.Collector, rng *vkit.Rng, budget int) {
 		}
 		return out
 	}
+	// regression input (run first on every tier): known finding, Cap.Union of two valid caps with
+	// nearly antipodal centres and a subnormal coordinate has a NaN centre
+	{
+		f := math.Float64frombits
+		a := s2.VerifC19CapRaw(s2.Point{Vector: r3.Vector{X: f(0xbff0000000000003), Y: 0, Z: f(0x8000000000000001)}}, f(0x4000000000000001))
+		b := s2.VerifC19CapRaw(s2.Point{Vector: r3.Vector{X: f(0x3ff0000000000006), Y: 0, Z: 0}}, 1)
+		u := a.Union(b)
+		c.Check("cap.Union(regression)", vkit.App("s2_Cap_eqbits", vkit.App("s2_Cap_Union", capTerm(a), capTerm(b)), capTerm(u)))
+		if capValidO(a) && capValidO(b) && !capValidO(u) {
+			uc, ur := s2.VerifC19CapFields(u)
+			c.Violate("cap.Union.valid", "Union of two valid caps is not a valid cap (NaN centre)", map[string]interface{}{"type": "s2.Cap",
+				"a": capKey(a), "b": capKey(b), "union_center": fs(uc.X, uc.Y, uc.Z), "union_radius2": fs(ur),
+				"go": "a := CapFromCenterChordAngle(Point{r3.Vector{-1.0000000000000007, 0, -5e-324}}, 2.0000000000000004); b := CapFromCenterChordAngle(Point{r3.Vector{1.0000000000000013, 0, 0}}, 1); a.Union(b).IsValid() == false"})
+		}
+	}
 	maxExcess := 0.0
 	note := func(x float64) {
 		if x > maxExcess {
